@@ -8,7 +8,7 @@ own model reader and executed on the symbolic stack machine (E3) within the decl
 import json
 import os
 
-from . import blocks as B
+from . import sm_search, blocks as B
 from . import driver, pool, report, repo, smt_enum, sym_ref
 
 NAME = "verif_block_0"
@@ -145,8 +145,98 @@ def check_instance(ctx, key, sfs, limits):
     return res
 
 
+def long_instances():
+    """Blocks whose specification needs 11..13 positions and a stack of 5..7 cells: too large to enumerate every
+    model, large enough for two-digit position and instruction indexes (t_10, theta_10, ...)."""
+    P, I = B.P, B.I
+    return [
+        [I("DUP2"), I("ADD"), I("DUP3"), I("MUL"), I("DUP4"), I("SUB"), I("SWAP1"), I("POP"), I("SWAP2"), I("DUP3"),
+         I("XOR"), I("SWAP1")],
+        [I("DUP1"), I("DUP3"), I("ADD"), I("DUP2"), I("DUP5"), I("MUL"), I("SWAP4"), I("SUB"), I("SWAP2"), I("AND"),
+         I("DUP2"), I("OR"), I("SWAP1")],
+        [P(1), I("DUP2"), I("ADD"), P(2), I("DUP4"), I("MUL"), I("SWAP3"), I("SWAP1"), I("SUB"), I("SWAP2"),
+         I("ISZERO"), I("SWAP1")],
+        [I("DUP3"), I("DUP3"), I("MSTORE"), I("DUP1"), I("MLOAD"), I("DUP3"), I("ADD"), I("SWAP3"), I("SWAP1"),
+         I("SSTORE"), I("DUP1"), I("SWAP2"), I("SUB")],
+    ]
+
+
+def work_long(ctx, block):
+    """A known realizing sequence (explicit-state search) is completed into a full model of the emitted text by the
+    enumerator with t_0..t_b0-1 fixed; the model is printed in three definition orders and both solver styles and
+    every print-out is decoded by the tool's reader."""
+    out = {"instances": 0, "decoded": 0, "nodes": 0, "assignments": 0, "viol": None, "witness_rejected": 0, "skipped": 0}
+    try:
+        specs, _ = driver.specs_for(ctx, block, name=NAME)
+    except (repo.UnitTimeout, MemoryError):
+        raise
+    except Exception:
+        out["skipped"] += 1
+        return out
+    for key, sfs in specs.items():
+        b0, bs = sfs["init_progr_len"], sfs["max_sk_sz"]
+        r = sm_search.search(sfs, b0, bs, node_cap=2000000)
+        if not r["found"]:
+            out["skipped"] += 1
+            continue
+        try:
+            bo, text = encode(ctx, key, sfs)
+            z3bo, _t = encode(ctx, key + "_z3", sfs, solver="z3")
+            prob = smt_enum.Problem(text)
+        except (repo.UnitTimeout, MemoryError):
+            raise
+        except Exception as e:
+            out["skipped"] += 1
+            continue
+        en = smt_enum.Enumerator(prob, node_cap=400000)
+        by_id = {ins.id: th for th, ins in bo._full_encoding.theta_to_instr.items()}
+        ids = list(r["ids"]) + ["NOP"] * (b0 - len(r["ids"]))
+        try:
+            fixed = [en.const_value("theta_%d" % by_id[i] if ("theta_%d" % by_id[i]) in prob.decls else str(by_id[i]))
+                     for i in ids]
+        except KeyError:
+            out["skipped"] += 1
+            continue
+        A = None
+        for _proj, A in en.models(fixed_t=fixed):
+            break
+        out["nodes"] += en.nodes
+        out["assignments"] += en.assignments
+        if A is None:
+            out["witness_rejected"] += 1
+            continue
+        out["instances"] += 1
+        for order in ("decl", "sorted", "reverse"):
+            for style, reader in (("oms", bo), ("z3", z3bo)):
+                reader._solver._model = smt_enum.model_text(prob, A, style, order)
+                try:
+                    with repo.quiet():
+                        got = reader._rebuild_block_from_solver()
+                except (repo.UnitTimeout, MemoryError):
+                    raise
+                except Exception as e:
+                    out["viol"] = {"clause": "model-not-decodable", "detail": "%s: %s" % (type(e).__name__, str(e)[:100]),
+                                   "reader": style, "print_order": order}
+                    break
+                out["decoded"] += 1
+                bad = sym_ref.realizes(sfs, got, max_len=b0, max_height=bs, check_bounds=True)
+                if bad is not None:
+                    out["viol"] = {"clause": "model-" + str(bad[0]), "ids": got, "model_ids": ids, "reader": style,
+                                   "print_order": order, "why": [str(x) for x in bad]}
+                    break
+            if out["viol"]:
+                break
+        if out["viol"]:
+            out["viol"].update({"block": B.to_text(block), "config": list(ctx.cfg), "spec_key": key, "b0": b0, "bs": bs,
+                                "long": True})
+            break
+    return out
+
+
 def work(ctx, unit):
     block, limits = unit
+    if limits == "long":
+        return work_long(ctx, block)
     out = {"instances": 0, "projections": 0, "decoded": 0, "nodes": 0, "assignments": 0, "status": {}, "viol": None,
            "multi": 0}
     try:
@@ -243,6 +333,28 @@ def main(tier, seed, only=None):
         for ch in pool.chunks(us, max(60, len(us) // 8 + 1)):
             tasks.append((cfg, ch))
     pool.run_tasks(tasks, work, setup=setup, unit_timeout=60, on_result=on_r)
+    # ---- long instances: one constructed model each, all print orders, both readers
+    lstat = {"instances": 0, "decoded": 0, "witness_rejected": 0, "skipped": 0}
+
+    def on_l(cfg, unit, st, value):
+        chk.add("evaluations")
+        if st != "ok":
+            tot["budget"] += 1
+            return
+        for k in lstat:
+            lstat[k] += value[k]
+        tot["decoded"] += value["decoded"]
+        tot["nodes"] += value["nodes"]
+        tot["assignments"] += value["assignments"]
+        if value["viol"]:
+            v = value["viol"]
+            chk.violation("long;%s;%s;reader=%s;order=%s" % (v["clause"], " ".join(v["config"]) or "default",
+                                                             v.get("reader"), v.get("print_order")), v)
+
+    lcfgs = [c for c in cfgs if "-empty" not in c and "-push-basic" not in c]
+    pool.run_tasks([(cfg, [(b, "long")]) for cfg in lcfgs for b in long_instances()], work, setup=setup,
+                   unit_timeout=600, on_result=on_l)
+    chk.cov["long_instances"] = lstat
     chk.cov.update({"states": max(tot["nodes"], 1), "transitions": max(tot["assignments"], 1),
                     "traces_validated_against_impl": tot["decoded"], "instances": tot["instances"],
                     "projected_models": tot["projections"], "instances_with_several_models": tot["multi"],
